@@ -90,7 +90,7 @@ class LeanFailure(Exception):
 
 def _lean_sources():
     """The Lean files that are part of the build: everything imported from Rbql.lean, the driver, the audit file."""
-    files = [LEAN_DIR / 'Rbql.lean', LEAN_DIR / 'Audit.lean', LEAN_DIR / 'RbqlGen.lean', LEAN_DIR / 'AuditGen.lean']
+    files = [LEAN_DIR / 'Rbql.lean', LEAN_DIR / 'Audit.lean', LEAN_DIR / 'RbqlGen.lean'] + [LEAN_DIR / ('AuditGen_%s.lean' % st) for st in GEN_FILES]
     root = _roots_text()
     for m in re.finditer(r'^import\s+(Rbql(?:\.\w+)+)\s*$', root, re.M):
         files.append(LEAN_DIR / (m.group(1).replace('.', '/') + '.lean'))
@@ -110,7 +110,10 @@ def _sources_hash():
     return h.hexdigest()
 
 
-GEN_PROPS = ('C16',)     # properties whose theorem file depends on source-derived (regenerated) Lean files: built separately
+# theorem files that depend on source-derived (regenerated) Lean files: each is built and audited on its own, never cached, and a
+# failure concerns only its property.  file stem -> property
+GEN_FILES = {'C16': 'C16', 'C06Gen': 'C06'}
+GEN_PROPS = tuple(sorted(set(GEN_FILES.values())))
 
 
 def _roots_text():
@@ -179,16 +182,27 @@ def write_if_changed(path, content):
     return True
 
 
+def theorem_names_by_file():
+    """{file stem: [theorem names]} for every theorem file of the build"""
+    out = {}
+    for p in _theorem_files():
+        txt = strip_lean_comments(p.read_text())
+        out[p.stem] = re.findall(r'^theorem\s+(C\d\d_\w+)', txt, re.M)
+    return out
+
+
 def generate_audit():
     thms = all_theorems()
     lines = ['-- GENERATED by harness/common.py from Rbql/Theorems/*.lean; do not edit',
              'import Rbql']
-    glines = ['-- GENERATED by harness/common.py: audit of the theorems that depend on source-derived Lean files', 'import RbqlGen']
-    for prop, names in thms.items():
+    gen = {st: ['-- GENERATED by harness/common.py: audit of the theorems of Rbql/Theorems/%s.lean, which depends on source-derived Lean files' % st,
+                'import Rbql.Theorems.%s' % st] for st in GEN_FILES}
+    for stem, names in theorem_names_by_file().items():
         for n in names:
-            (glines if prop in GEN_PROPS else lines).append('#print axioms Rbql.%s' % n)
+            (gen[stem] if stem in GEN_FILES else lines).append('#print axioms Rbql.%s' % n)
     write_if_changed(LEAN_DIR / 'Audit.lean', '\n'.join(lines) + '\n')
-    write_if_changed(LEAN_DIR / 'AuditGen.lean', '\n'.join(glines) + '\n')
+    for st, gl in gen.items():
+        write_if_changed(LEAN_DIR / ('AuditGen_%s.lean' % st), '\n'.join(gl) + '\n')
     return thms
 
 
@@ -252,19 +266,26 @@ def _parse_axioms(text, axioms):
 
 
 def _with_generated(axioms, prop):
-    """For a property whose theorems depend on source-derived Lean files, build and audit that part now (it changes
-    with /repo, so it is never cached). Its failure concerns only that property."""
+    """For a property with theorems that depend on source-derived Lean files, build and audit those files now (they change
+    with /repo, so this is never cached). A failure concerns only that property."""
     if prop not in GEN_PROPS:
         return axioms
     axioms = dict(axioms)
-    r = subprocess.run(['lake', 'build', 'RbqlGen'], cwd=str(LEAN_DIR), stdout=subprocess.PIPE, stderr=subprocess.STDOUT, text=True)
-    if r.returncode != 0:
-        errs = [l for l in r.stdout.split('\n') if l.startswith('error') or 'is false' in l or 'Generated.' in l]
-        raise LeanFailure('lake-build (source-derived obligations)', '\n'.join(errs)[-3000:] or r.stdout[-3000:])
-    r = subprocess.run(['lake', 'env', 'lean', 'AuditGen.lean'], cwd=str(LEAN_DIR), stdout=subprocess.PIPE, stderr=subprocess.STDOUT, text=True)
-    if r.returncode != 0:
-        raise LeanFailure('audit (source-derived obligations)', r.stdout[-3000:])
-    _parse_axioms(r.stdout, axioms)
+    for stem, pr in GEN_FILES.items():
+        if pr != prop or not (LEAN_DIR / 'Rbql' / 'Theorems' / (stem + '.lean')).exists():
+            continue
+        r = subprocess.run(['lake', 'build', '+Rbql.Theorems.' + stem], cwd=str(LEAN_DIR), stdout=subprocess.PIPE, stderr=subprocess.STDOUT, text=True)
+        if r.returncode != 0:
+            errs = [l for l in r.stdout.split('\n') if l.startswith('error') or 'is false' in l or 'Generated.' in l]
+            e = LeanFailure('lake-build (source-derived obligations of %s)' % stem, '\n'.join(errs)[-3000:] or r.stdout[-3000:])
+            e.axioms = axioms       # what was audited so far stays valid: only this file's theorems are missing
+            raise e
+        r = subprocess.run(['lake', 'env', 'lean', 'AuditGen_%s.lean' % stem], cwd=str(LEAN_DIR), stdout=subprocess.PIPE, stderr=subprocess.STDOUT, text=True)
+        if r.returncode != 0:
+            e = LeanFailure('audit (source-derived obligations of %s)' % stem, r.stdout[-3000:])
+            e.axioms = axioms
+            raise e
+        _parse_axioms(r.stdout, axioms)
     return axioms
 
 
